@@ -581,3 +581,70 @@ def targets(tier='quick'):
     for order in ('ordered', 'anti'):
         T.append(Target('two/%s' % order, 'system_dynamics.compute_correlations', scen_two(order), post_two, RT, PROP, replay=replay_nt))
     return T
+
+
+# ---- three operators, the first two at the same step: inserted as controls in operator order
+def ord3_registry():
+    R = ord_registry()
+    R.models.pop('control.Control')
+    R.models.pop('CtlRec.add_single')
+    from .c18 import matmul_hook
+    R.matmul = matmul_hook
+
+    @model
+    def m_cd(ip, args, kw):
+        ip.ghost['cd_kwargs'] = kw
+        return Obj('DynRec', {})
+    R.models['system_dynamics.compute_dynamics'] = m_cd
+    return R
+
+
+def scen_ord3(o0, o1, same_step):
+    def scen(ip, repo):
+        A, B, C = Vc('op_a'), Vc('op_b'), Vc('op_c')
+        fa, fb = Int('first_time_a'), Int('first_time_b')
+        ip.assume(z3.And(fa >= 0, fb >= fa, (fa == fb) if same_step else (fa < fb)))
+        lt, _, n = int_seq('last_times', kind='ndarray')
+        ip.assume(n >= 1)
+        j = Int('jq')
+        ip.assume(z3.ForAll([j], z3.Implies(z3.And(j >= 0, j < n), lt.fn(j) >= fb)))
+        sys_ = Obj('Sys', {'dimension': Int('dim')})
+        kwargs = {'system': sys_, 'process_tensor': Vc('pt'), 'operators': [A, B, C], 'first_times': (fa, fb), 'last_times': lt,
+                  'ops_order': [o0, o1, 'left'], 'initial_state': Vc('rho0'), 'start_time': Real('t0'), 'dt': Real('dt')}
+        return {'args': [], 'kwargs': kwargs, 'A': A, 'B': B, 'fa': fa, 'fb': fb, 'o': (o0, o1), 'same': same_step,
+                'inputs': {'first_times': [fa, fb], 'ops_order': [o0, o1, 'left']}}
+    return scen
+
+
+def post_ord3(ip, ctx, out):
+    if not expect_no_other_exception(ip, out):
+        return
+    from .c18 import MatMul
+    ctl = ip.ghost['cd_kwargs']['control']
+    sa = uf('left_super' if ctx['o'][0] == 'left' else 'right_super', ctx['A'])
+    sb = uf('left_super' if ctx['o'][1] == 'left' else 'right_super', ctx['B'])
+    pre = ctl.fields['_step_controls']['pre']
+    from pyvc.lib import getitem
+    got_a = getitem(ip, pre, ctx['fa'])
+    if ctx['same']:
+        # the operator listed later acts later:  B-superoperator @ A-superoperator
+        ip.prove('ord/controls-compose-in-operator-order', got_a == MatMul(sb, sa))
+    else:
+        got_b = getitem(ip, pre, ctx['fb'])
+        ip.prove('ord/controls-at-first-times', z3.And(got_a == sa, got_b == sb))
+    post = ctl.fields['_step_controls']['post']
+    from pyvc.lib import contains
+    ip.prove('ord/no-post-controls', z3.Not(to_z3(contains(ip, post, ctx['fa']))))
+
+
+_targets_two = targets
+
+
+def targets(tier='quick'):
+    T = _targets_two(tier)
+    R3 = ord3_registry()
+    for o0, o1 in (('left', 'left'), ('right', 'right'), ('left', 'right')):
+        for same in (True, False):
+            T.append(Target('ord3/%s-%s[%s]' % (o0, o1, 'same step' if same else 'distinct steps'), 'system_dynamics._compute_ordered_nt_correlations',
+                            scen_ord3(o0, o1, same), post_ord3, R3, PROP, replay=lambda ob: {'func': 'three_operators_same_step', 'inputs': {}}))
+    return T
